@@ -5,7 +5,7 @@
 (* Enumeration module (no behaviours).  It contributes                     *)
 (*   (a) abstract tables   t1(id PK, a INTEGER, b VARCHAR, c BOOLEAN)      *)
 (*                         t2(id PK, x INTEGER, y VARCHAR)                 *)
-(*       with at most 5 / 4 rows over small ordered domains incl. NULL,    *)
+(*       with at most 6 / 4 rows over small ordered domains incl. NULL,    *)
 (*   (b) DML histories (multi-row INSERT, UPSERT, INSERT .. ON CONFLICT DO *)
 (*       NOTHING, UPDATE of indexed columns, DELETE, delete + re-insert),  *)
 (*       split into an auto-committed prefix and one multi-statement       *)
@@ -415,15 +415,29 @@ NullFirst == \A i \in 1..Len(Cases) :
        IN (\E n \in 1..Len(rows) : rows[n][p] = NULL) => (IF sh.order[1][2] THEN rows[Len(rows)][p] = NULL ELSE rows[1][p] = NULL)
 
 Count(S) == Cardinality(S)
+StmtKinds == {"ins", "upsert", "insdn", "upd", "del"}
 Facts ==
   /\ PrintT(<<"PartitionHolds", PartitionHolds>>)
   /\ PrintT(<<"SortedOK", SortedOK>>)
   /\ PrintT(<<"NullFirst", NullFirst>>)
-  /\ PrintT(<<"counts", "histories", NH, "queries", NQ, "single", NSingle, "join", NJoin, "preds", NP, "shapes", NS,
-              "cases", Len(Cases), "parts", Len(Parts),
-              "touchy", Count({i \in 1..Len(Cases) : Cases[i].touchy}),
-              "nonempty", Count({i \in 1..Len(Cases) : Len(Cases[i].rows) > 0}),
-              "worlds", FoldLeft(LAMBDA acc, h : acc + Len(h.schemas), 0, Hist)>>)
+  /\ PrintT(<<"count", "histories", NH>>)
+  /\ PrintT(<<"count", "queries", NQ>>)
+  /\ PrintT(<<"count", "single-table queries", NSingle>>)
+  /\ PrintT(<<"count", "join queries", NJoin>>)
+  /\ PrintT(<<"count", "predicates", NP>>)
+  /\ PrintT(<<"count", "shapes", NS>>)
+  /\ PrintT(<<"count", "cases", Len(Cases)>>)
+  /\ PrintT(<<"count", "partitions", Len(Parts)>>)
+  /\ PrintT(<<"count", "touchy cases", Count({i \in 1..Len(Cases) : Cases[i].touchy})>>)
+  /\ PrintT(<<"count", "cases with a non-empty answer", Count({i \in 1..Len(Cases) : Len(Cases[i].rows) > 0})>>)
+  /\ PrintT(<<"count", "partitions with a non-empty NULL part", Count({i \in 1..Len(Parts) : Len(Parts[i].nul) > 0})>>)
+  /\ PrintT(<<"count", "worlds", FoldLeft(LAMBDA acc, h : acc + Len(h.schemas), 0, Hist)>>)
+  /\ PrintT(<<"count", "histories with a transaction", Count({j \in 1..NH : Hist[j].split < Len(Hist[j].stmts)})>>)
+  /\ PrintT(<<"count", "histories whose transaction removes rows", Count({j \in 1..NH : Len(Hist[j].txRemoved) > 0})>>)
+  /\ \A kd \in StmtKinds :
+        PrintT(<<"count", "histories with " \o kd, Count({j \in 1..NH : \E n \in 1..Len(Hist[j].stmts) : Hist[j].stmts[n].k = kd})>>)
+  /\ \A sv \in 1..Len(Schemas) :
+        PrintT(<<"count", "worlds under schema " \o Schemas[sv].name, Count({j \in 1..NH : \E z \in 1..Len(Hist[j].schemas) : Hist[j].schemas[z] = sv})>>)
 
 ASSUME /\ TLCSet(1, HistOutDef)
        /\ TLCSet(2, CasesDef)
